@@ -1,6 +1,7 @@
 package rg
 
 import (
+	"sort"
 	"fmt"
 	"go/token"
 	"go/types"
@@ -211,6 +212,25 @@ func (c *C) shrinkers() map[*ssa.Function]bool {
 	}
 	// generic sorted-set: Delete-like methods of Btree/SortedSet instantiations are found through origin()
 	return out
+}
+
+// applySubst rewrites names in key, longest name first: "conv(cmd[1])" -> "*free:key" must win over "cmd" -> "*free:cmd",
+// and the order must not depend on map iteration.
+func applySubst(key string, sub map[string]string) string {
+	froms := make([]string, 0, len(sub))
+	for f := range sub {
+		froms = append(froms, f)
+	}
+	sort.Slice(froms, func(i, j int) bool {
+		if len(froms[i]) != len(froms[j]) {
+			return len(froms[i]) > len(froms[j])
+		}
+		return froms[i] < froms[j]
+	})
+	for _, f := range froms {
+		key = strings.ReplaceAll(key, f, sub[f])
+	}
+	return key
 }
 
 // closureKeySub returns the substitution closure-canon -> parent-canon for captured single-assignment variables.
